@@ -233,7 +233,13 @@ func fnClientList(ctx *cmdContext, args map[string]any) (output respValue, err e
 			_, included = ids[cs.id]
 		}
 		if included {
-			info := ctx.info(cs)
+			var info string
+			if ctx.multi {
+				// inside EXEC the data store is already owned by this command
+				info = ctx.infoUnlocked(cs)
+			} else {
+				info = ctx.info(cs)
+			}
 			list.WriteString(info)
 		}
 	})
